@@ -143,6 +143,16 @@ type c09Run struct {
 	Panic       interface{}
 }
 
+func claimVolumes(p *corev1.Pod) int {
+	n := 0
+	for _, v := range p.Spec.Volumes {
+		if v.PersistentVolumeClaim != nil {
+			n++
+		}
+	}
+	return n
+}
+
 func revDataHash(r *appsv1.ControllerRevision) string {
 	return fmt.Sprintf("%x", sha1.Sum(r.Data.Raw))[:10]
 }
@@ -177,7 +187,8 @@ func c09Fingerprint(snap simapi.Snapshot, sets []string) []string {
 				continue
 			}
 			_, ord, _ := refspec.ParsePodName(p.Name)
-			line := fmt.Sprintf("pod %s ready=%v terminating=%v", p.Name, world.IsReady(p), p.DeletionTimestamp != nil)
+			line := fmt.Sprintf("pod %s ready=%v terminating=%v identity-label-ok=%v claim-volumes=%d", p.Name, world.IsReady(p), p.DeletionTimestamp != nil,
+				p.Labels[asv1.StatefulSetPodNameLabel] == p.Name, claimVolumes(p))
 			if rolling && ord >= part {
 				line += " rev=" + p.Labels[appsv1.StatefulSetRevisionLabel]
 			}
@@ -447,13 +458,48 @@ func runC09(ctx *Ctx) *Result {
 				}
 			}
 		}
+		checkReportedOnly := func(run *c09Run, f1 *simapi.Fault, plan string) {
+			res.Evaluations++
+			tr := run.Target
+			fired := false
+			for _, c := range tr.Calls {
+				if c.Injected != "" {
+					fired = true
+				}
+			}
+			if !fired || tr.Crash {
+				return
+			}
+			res.Stats["faults_fired"]++
+			requeued := false
+			for _, op := range tr.QOps {
+				if op.Op == "addRateLimited" {
+					requeued = true
+				}
+			}
+			writesAfter := 0
+			seenFault := false
+			for _, c := range tr.Calls {
+				if c.Injected != "" {
+					seenFault = true
+					continue
+				}
+				if seenFault && c.IsWrite() {
+					writesAfter++
+				}
+			}
+			if !requeued {
+				report("failure-not-reported", fmt.Sprintf("the uncached read reported the set gone (%s) but the reconcile carried on (%d writes afterwards) and was not put back for retry", f1.Identity, writesAfter), plan, run)
+			}
+		}
 		for _, id := range ids {
 			for _, kind := range kinds {
 				if !simapi.ValidKind(id.verb, kind) {
 					continue
 				}
-				if kind == "notfound" && !(id.res == simapi.Pods || (id.res == simapi.Revisions && id.verb == "delete")) {
-					continue // a really deleted set/revision gives a trivially different final state
+				setGone := kind == "notfound" && id.res == simapi.Sets && id.verb == "get"
+				if kind == "notfound" && !setGone && !(id.res == simapi.Pods || (id.res == simapi.Revisions && id.verb == "delete")) {
+					continue // a really deleted revision gives a trivially different final state
 				}
 				modes := []string{"before", "crash-before"}
 				if id.write && (kind == "500" || kind == "timeout") {
@@ -468,6 +514,13 @@ func runC09(ctx *Ctx) *Result {
 					res.Stats["single_fault_runs"]++
 					res.Stats["fault_"+kind+"_"+mode]++
 					res.sig(e.Name + f.String())
+					if setGone {
+						// the uncached read says the set is gone (it really is): the reconcile must not carry on
+						// as if nothing happened; the final state is that of a deleted set, no twin to compare with
+						res.Stats["faults_set_gone_at_fresh_read"]++
+						checkReportedOnly(run, f, f.String())
+						continue
+					}
 					check(run, f, f.String(), true)
 					// pairs: a second fault in the retry
 					if run.Target.Err != nil || run.Target.Crash {
